@@ -394,6 +394,10 @@ func scripted() []scenario {
 	// the Lean witness c07_reader_unsound_dict: bulk 0 has created token 5 but not registered it; bulk 1 is completely indexed
 	res = append(res, scenario{"witness-dict", 2, [][]doc{{d(0, 0, 1, 1, 5)}, {d(1, 0, 1, 2, 5)}},
 		cat(app(0), g("idx0", 4), app(1), fullIdx(1, 2), []string{"srch:N.T5:0:10", "drain"})})
+	// a reader stopped in front of a leaf's dictionary read while a bulk registers a NEW token of the same field
+	// (getTokenProvider must take the per-field TID list before the tidToVal slice)
+	res = append(res, scenario{"dict-read-order", 2, [][]doc{{d(0, 0, 1, 1, 5)}, {d(1, 0, 2, 1, 6, 7)}},
+		cat(app(0), fullIdx(0, 2), []string{"srch:O.T5.T6:0:10"}, g("rdr0", 5), app(1), g("idx1", 6), g("rdr0", 2), g("idx1", 2), []string{"drain"})})
 	// the Lean witness c07_fetch_panic_witness: provider created, then a bulk adds a block and its positions
 	res = append(res, scenario{"witness-fetch", 2, [][]doc{{d(0, 0, 1, 1, 5)}, {d(1, 0, 1, 2, 5)}},
 		cat(app(0), fullIdx(0, 2), []string{"fetch:1.0+0.0"}, g("rdr0", 1), app(1), g("idx1", 2), g("rdr0", 3), []string{"drain"})})
@@ -831,6 +835,8 @@ func siteOf(class string) string {
 	switch class {
 	case "search-result-violates-query":
 		return "frac/active_token_list.go:Append"
+	case "search-error":
+		return "frac/active_index.go:Search"
 	case "fetch-error-unpublished-block":
 		return "frac/active.go:createDataProvider"
 	case "seal-hangs-after-write-error":
